@@ -1,4 +1,6 @@
 import HapVerif.Model.Subs
+import HapVerif.Proofs.CoapEvent
+import HapVerif.Gen.CoapEvent
 
 /-! # C12 - subscriptions survive reconnects and every event reaches every listener once
 
@@ -500,5 +502,88 @@ example :
     let s := orun { wanted := [(2, 20)], registered := [(2, 20)] }
       [.accUnreg [(2, 20)], .addWanted [(1, 10), (1, 11)], .accReg [(1, 10), (1, 11)], .removeWanted [(2, 20)], .drop, .reconnect]
     s.wanted = [(1, 10), (1, 11)] ∧ s.registered = [(1, 10), (1, 11)] := by decide
+
+
+/-! ## The CoAP event path: every record of a notification is handed over exactly once, in order -/
+
+section CoapEvents
+open HapVerif.CoapEvent
+
+/-- **every record of a notification a conformant accessory sends over CoAP is handed to the owner exactly once and in
+    order** - any number of records, any instance ids, bodies of any length, EMPTY bodies at every position included -/
+theorem C12_coap_event_records (rs : List Rec) (hne : rs ≠ []) (hwf : ∀ r ∈ rs, WF r) :
+    parse (encode rs) = (rs, .ok) :=
+  HapVerif.CoapEventP.loop_encode rs hne hwf _ (by
+    have := HapVerif.CoapEventP.encode_length_ge rs
+    omega)
+
+/-- non-vacuity, and the shape an early stop gets wrong: two records, the last with an empty body -/
+example : parse (encode [⟨51, [1, 1, 1]⟩, ⟨56, []⟩]) = ([⟨51, [1, 1, 1]⟩, ⟨56, []⟩], .ok) :=
+  C12_coap_event_records _ (by simp) (by intro r hr; simp at hr; rcases hr with rfl | rfl <;> simp [WF])
+
+/-- a notification that ends inside a record header is a `struct.error` - after the complete records before it have been
+    handed over (they are not taken back) -/
+theorem C12_coap_event_truncated_header (r : Rec) (hwf : WF r) (junk : Bytes) (hj : 0 < junk.length) (hj5 : junk.length < 5) :
+    parse (encode [r] ++ junk) = ([r], .structError) := by
+  obtain ⟨hi, hl⟩ := hwf
+  have hlen : (encode [r] ++ junk).length = 5 + r.body.length + junk.length := by
+    simp [encode, HapVerif.CoapEventP.encRec_length]
+  have henc : encode [r] ++ junk = 0 :: (natToLe 2 r.iid ++ (natToLe 2 r.body.length ++ (r.body ++ junk))) := by
+    simp [encode, encRec, List.append_assoc]
+  unfold parse
+  rw [hlen, henc]
+  unfold loop
+  have h5 : ¬ (0 :: (natToLe 2 r.iid ++ (natToLe 2 r.body.length ++ (r.body ++ junk)))).length < 5 := by
+    simp [natToLe_length]; omega
+  simp only [h5, ↓reduceIte]
+  have d1 : (0 :: (natToLe 2 r.iid ++ (natToLe 2 r.body.length ++ (r.body ++ junk)))).drop 1
+      = natToLe 2 r.iid ++ (natToLe 2 r.body.length ++ (r.body ++ junk)) := rfl
+  have d3 : (0 :: (natToLe 2 r.iid ++ (natToLe 2 r.body.length ++ (r.body ++ junk)))).drop 3
+      = natToLe 2 r.body.length ++ (r.body ++ junk) := by
+    show (natToLe 2 r.iid ++ _).drop 2 = _
+    rw [List.drop_append_of_le_length (by simp [natToLe_length]), List.drop_of_length_le (by simp [natToLe_length])]
+    rfl
+  have d5 : ∀ k, (0 :: (natToLe 2 r.iid ++ (natToLe 2 r.body.length ++ (r.body ++ junk)))).drop (5 + k)
+      = (r.body ++ junk).drop k := by
+    intro k
+    rw [show 5 + k = (4 + k) + 1 by omega, List.drop_succ_cons]
+    rw [List.drop_append (l₁ := natToLe 2 r.iid)]
+    simp only [natToLe_length]
+    have : (natToLe 2 r.iid).drop (4 + k) = [] := List.drop_of_length_le (by simp [natToLe_length]; omega)
+    rw [this, List.nil_append, show 4 + k - 2 = 2 + k by omega, List.drop_append (l₁ := natToLe 2 r.body.length)]
+    simp only [natToLe_length]
+    have : (natToLe 2 r.body.length).drop (2 + k) = [] := List.drop_of_length_le (by simp [natToLe_length])
+    rw [this, List.nil_append, show 2 + k - 2 = k by omega]
+  rw [d1, d3, HapVerif.CoapEventP.le16_natToLe _ hi, HapVerif.CoapEventP.le16_natToLe _ hl]
+  have d50 := d5 0
+  simp only [Nat.add_zero, List.drop_zero] at d50
+  rw [d50, d5 r.body.length]
+  have hb : (r.body ++ junk).take r.body.length = r.body := by
+    rw [List.take_append_of_le_length (Nat.le_refl _)]; exact List.take_of_length_le (Nat.le_refl _)
+  have hr : (r.body ++ junk).drop r.body.length = junk := by
+    rw [List.drop_append_of_le_length (Nat.le_refl _), List.drop_of_length_le (Nat.le_refl _), List.nil_append]
+  rw [hb, hr]
+  have hje : junk.isEmpty = false := by
+    cases junk with
+    | nil => simp at hj
+    | cons _ _ => rfl
+  simp only [hje, Bool.false_eq_true, ↓reduceIte]
+  -- the next iteration finds fewer than five bytes
+  cases hfuel : 5 + r.body.length + junk.length with
+  | zero => omega
+  | succ n =>
+    unfold loop
+    simp only [hj5, ↓reduceIte]
+
+/-- **the loop of the model is the loop of the source** (`C12_gen_coap_event_tie`): header format, the five bytes unpacked,
+    the body slice, the advance, the start and - the piece an early stop changes - the stop test `offset >= len(payload)`,
+    lifted from `EventResource.render_put` on every run (the translator also checks that the stop test is the LAST statement
+    of the loop body, so every record is handed over before the loop can stop) -/
+theorem C12_gen_coap_event_tie :
+    Gen.CoapEvent.fmtSrc = "<BHH" ∧ Gen.CoapEvent.unpackedSrc = "payload[offset:offset + 5]" ∧
+    Gen.CoapEvent.bodySrc = "payload[offset + 5:offset + 5 + body_len]" ∧ Gen.CoapEvent.advanceSrc = "5 + body_len" ∧
+    Gen.CoapEvent.stopSrc = "offset >= len(payload)" ∧ Gen.CoapEvent.initSrc = "0" := by decide
+
+end CoapEvents
 
 end HapVerif.Subs
